@@ -281,8 +281,11 @@ class UTPM(Ring, RawAlgorithmsMixIn):
         ybar, dummy, xbar = out
         # print 'xbar =', xbar
         # print 'ybar =', ybar
-        xbar += ybar[sl]
+        # x may itself be a view of (part of) y[sl], e.g. y[0] = y[0]: take the adjoint of the
+        # overwritten cells out first, clear them, then accumulate
+        tmp = ybar[sl].copy()
         ybar[sl].data[...] = 0.
+        xbar += tmp
         # print 'funcargs=',funcargs
         # print y[funcargs[0]]
 
